@@ -103,7 +103,10 @@ def register(reg):
                               'implies(v > 0 and v < pow2(-152), result == 1073741824)',
                               'implies(v >= pow2(-129) and v < pow2(127), lis68(result) <= v and (v - lis68(result)) * 4194304 < v)',
                               'implies(v <= -pow2(-129) and v > -pow2(127), lis68(result) >= v and (lis68(result) - v) * 4194304 < -v)'],
-                     canaries=['result == 1073741824', 'result == 2147483647'], crosscheck=False, timeout=60))
+                     canaries=['result == 1073741824', 'result == 2147483647'], timeout=60,
+                     domains={'v': [0.0, 1.0, -1.0, 153.0, -153.0, 0.1, 2.0 ** 126, 2.0 ** 127, -2.0 ** 127, 1.5 * 2.0 ** 127, 2.0 ** 128, 1.7e38, -1.7e38,
+                                    3.0e38, -3.0e38, 2.0 ** -129, -2.0 ** -129, 2.0 ** -130, 2.0 ** -152, 2.0 ** -153, 1e-50, 1e300, -1e300,
+                                    0.3 * 2.0 ** 127, 0.75 * 2.0 ** 127, 123456.789, -0.000123]}))
     reg.add(Contract(LP, 'from70', {'theWord': Int}, requires=W32, returns=Real,
                      ensures=['result == lis70(theWord)'], canaries=['result == 0']))
     reg.add(Contract(LP, 'from73', {'theWord': Int}, requires=['-2147483648 <= theWord', 'theWord < 2147483648'], returns=Int,
